@@ -146,6 +146,37 @@ def gen_qe(env, tier):
     return [f for f in g.levels(tier)]
 
 
+def gen_qcombo(env, tier):
+    """Connectives over 2-3 quantified sub-formulas with multi-variable blocks that partly clash with free
+    occurrences and with sibling binders (alpha-renaming bookkeeping of the prenex normalizer)."""
+    m = env.formula_manager
+    a, b, c, d = [m.Symbol(n, T.BOOL) for n in "abcd"]
+    bodies = [m.Iff(a, b), m.Or(a, c), m.And(b, m.Not(c)), m.Implies(a, m.And(b, c)), m.Or(b, d), a, m.Not(b),
+              m.Iff(m.Iff(a, b), c)]
+    blocks = [[a], [b], [a, b], [b, c], [a, c], [a, b, c]]
+    qs = []
+    for body in bodies:
+        for vs in blocks:
+            qs.append(m.ForAll(vs, body))
+            qs.append(m.Exists(vs, body))
+    qs = BoolGrammar.uniq(qs)
+    free = [a, b, c, m.Not(a)]
+    out = []
+    q2 = qs if tier == "thorough" else qs[::3]
+    for x, y in itertools.product(q2, qs[1::2] if tier == "thorough" else qs[1::4]):
+        out += [m.And(x, y), m.Or(x, y), m.Implies(x, y), m.Iff(x, y)]
+        for fr in free[:2]:
+            out += [m.And(fr, x, y), m.Or(x, fr, y), m.Ite(fr, x, y), m.Ite(x, y, fr)]
+    q3 = qs[::5] if tier == "thorough" else qs[::11]
+    for x, y, z in itertools.product(q3, repeat=3):
+        out += [m.And(x, y, z), m.Or(m.And(a, x), m.Not(y), z)]
+    # nested blocks re-binding a variable of the enclosing block
+    for x in q2:
+        for vs in blocks[:4]:
+            out += [m.ForAll(vs, m.And(x, a)), m.Exists(vs, m.Or(m.Not(x), b))]
+    return BoolGrammar.uniq(out)
+
+
 def gen_poly(env, tier):
     """polynomial terms over Int and Real to depth 3"""
     m = env.formula_manager
@@ -230,6 +261,10 @@ def gen_prop(env, tier):
 FAMILIES = {
     "nnf": ("nnf", gen_bool_q),
     "prenex": ("prenex", gen_bool_q),
+    "prenex_qcombo": ("prenex", gen_qcombo),
+    "nnf_qcombo": ("nnf", gen_qcombo),
+    "qe_shannon_qcombo": ("qe_shannon", gen_qcombo),
+    "qe_selfsub_qcombo": ("qe_selfsub", gen_qcombo),
     "aig": ("aig", gen_bool_q),
     "conj_partition": ("conj_partition", gen_bool_noq),
     "disj_partition": ("disj_partition", gen_bool_noq),
